@@ -158,3 +158,6 @@ Lemma flat_map_ext_in {A B} (f g : A -> list B) l :
 Proof.
   induction l as [|a l IH]; simpl; intros H; auto. rewrite H, IH; auto.
 Qed.
+
+Lemma nth_error_Some_lt {A} (l : list A) i x : nth_error l i = Some x -> i < length l.
+Proof. intros H. apply nth_error_Some. congruence. Qed.
